@@ -2,7 +2,8 @@
 
 Two subsystems, one acceptor (C09_Trace.tla):
   * WriterMap.tla  + driver writermap : core/writer/channel_writer.go - one operation on a fresh writer (all 30 kinds) and
-                                        HISTORIES on one live writer (operation / UpdateNameMappings / operation ...)
+                                        HISTORIES on one live writer (operation / UpdateNameMappings / operation ...); the api
+                                        events of a collection share its source object (sobj; control EventMutated)
   * TargetMap.tla  + driver targetmap : core/reader/target_client.go - GetCollectionInfo / GetPartitionInfo / GetDatabaseName
                                         of the real TargetClient against an in-process fake Milvus gRPC server
 The name mapping itself (statement function, function of the code) is NameMap.tla.
@@ -24,6 +25,10 @@ C = dict(
         dict(name="hist-uouo", module="WriterMap", cfg="WriterMap_HPlanUOUO.cfg", workers=4, cap={"quick": 500}),
         dict(name="hist-sim", module="WriterMap", cfg="WriterMap_HPlanSim.cfg", simulate={"quick": 30, "thorough": 400}, depth=9,
              cap={"quick": 300, "thorough": 8000}),
+        # the life of a collection: the api events of one collection share the collection's source object (as core/reader builds them)
+        dict(name="hist-life", module="WriterMap", cfg="WriterMap_HPlanLife.cfg", workers=4, cap={"quick": 500}),
+        dict(name="hist-life-sim", module="WriterMap", cfg="WriterMap_HPlanLifeSim.cfg", simulate={"quick": 20, "thorough": 400}, depth=10,
+             cap={"quick": 150, "thorough": 6000}),
         # the target client
         dict(name="tgt-uc", module="TargetMap", cfg="TargetMap_PlanUC.cfg", workers=4),
         dict(name="tgt-cuc", module="TargetMap", cfg="TargetMap_PlanCUC.cfg", workers=4, cap={"quick": 600}),
@@ -37,7 +42,11 @@ C = dict(
     nontrivial=lambda t: any(e.get("calls") for e in t["events"]),
     rule="plans = (a) every (kind, source database, mapping shape, request rejected or not) of WriterMap.tla on a fresh writer; "
          "(b) histories on one live writer: every operation - update - operation and mapping - operation - update - operation "
-         "sequence of the small configurations (sampled in the quick tier) and random 7-step histories over all 30 kinds; "
+         "sequence of the small configurations (sampled in the quick tier) and random 7-step histories over all 30 kinds; the api "
+         "events of one collection (create collection, create / drop partition, drop collection) share ONE CollectionInfo / "
+         "PartitionInfo object per history, as core/reader hands them over: every mapping - event - event - event sequence on two "
+         "source databases (sampled in the quick tier), random 8-step lives (events, op / data messages, probes, updates), directed "
+         "lives under every mapping shape incl. rename + move; "
          "(c) the target client: every mapping x call, call - update - call sequences (sampled in the quick tier), random 6-step "
          "histories.  When a table holds more than one entry for a source database the operation (24 times) / the history "
          "(8 times) is repeated on fresh objects (Go map iteration order) and every distinct outcome is recorded; "
@@ -51,6 +60,10 @@ C = dict(
         "alias queries (readiness of names that only exist as mapping targets) stand for 'bookkeeping is keyed by source names'",
         "histories: the mapping in force is the union of the entries handed to UpdateNameMappings so far (later entries overwrite equal "
         "keys, nothing is ever removed); every operation of a history is stamped later than the ones before it; no injected failures",
+        "histories: the source object of a collection (reader's *pb.CollectionInfo, *pb.PartitionInfo) is created by the first api event "
+        "of the collection in the history and reused by every later one; its name fields (Schema.Name, Schema.DbName, PartitionName) are "
+        "source-side bookkeeping: they must read the same after every step; after a drop event a readiness query under the source names at "
+        "the stamp of the drop must answer 'dropped' without a downstream probe",
         "target client: downstream = in-process fake Milvus gRPC server recording every unary request; the routed database is the gRPC "
         "metadata 'dbname' the SDK client attaches (a proxy fills an empty db_name field from it), the collection is the request's "
         "collection_name; Connect requests must go to a database the call may use",
@@ -72,6 +85,9 @@ def run(tier, replay=None):
     if not replay:
         must_violate("WriterMap", "WriterMap_HMemo.cfg", "HContract", "stale memo of the mapping function")
         must_violate("TargetMap", "TargetMap_Double.cfg", "TgtContract", "mapping applied twice")
+        must_violate("WriterMap", "WriterMap_HMutated.cfg", "HContract", "an event handler writes the mapped names into the collection's shared source object (routing of the later events)")
+        if tier == "thorough":
+            must_violate("WriterMap", "WriterMap_HMutatedObj.cfg", "SrcIntact", "an event handler writes the mapped names into the collection's shared source object (the object itself)")
     c = dict(C)
     # the steps name the subsystem (also for directed plans and replay files)
     c["driver_of"] = lambda p: "targetmap" if any(s.get("op") in ("tupd", "tcall") for s in p.get("steps", [])) else "writermap"
